@@ -143,3 +143,102 @@ def units(tier, seed):
     us.append(Unit(name="c20.noqa_off[2 violations]", functions=["sqlfluff.core.linter.linted_file.LintedFile.get_violations"],
                    bounds={"violations": 2}, make=make_off(2), replay="concrete", sharded=False, timeout_s=60))
     return us
+
+
+# ---------------------------------------------------------------- _parse_noqa: comment text -> directive
+
+REFMAP = {"LT01": {"LT01"}, "LT02": {"LT02"}, "layout": {"LT01", "LT02"}, "AM04": {"AM04"}}
+TOKENS = ["noqa", ":", " ", "disable=", "enable=", "all", "LT01", "LT*", "PRS", ",", "-- ", "x"]
+
+
+def ref_parse(comment, refmap):
+    """Reference parser written from the documented grammar (independent of the implementation).
+    Returns None | "error" | (rules or None, action)."""
+    import fnmatch
+    last = comment.split("--")[-1].strip()
+    if not last.startswith("noqa"):
+        return None
+    rest = last[4:]
+    if not rest:
+        return (None, None)
+    if rest[0] != ":":
+        return "error"
+    rest = rest[1:].strip()
+    if not rest:
+        return (None, None)
+    action = None
+    if "=" in rest:
+        action, _, rest = rest.partition("=")
+        if action not in ("disable", "enable"):
+            return "error"
+    elif rest in ("disable", "enable"):
+        return "error"
+    if rest == "all":
+        return (None, action)
+    rules = set()
+    for ref in (r.strip() for r in rest.split(",")):
+        hits = [k for k in refmap if fnmatch.fnmatchcase(k, ref)]
+        if hits:
+            for k in hits:
+                rules |= refmap[k]
+        else:
+            rules.add(ref)      # unmatched references still match the special codes (TMP / PRS / LXR) literally
+    return (tuple(sorted(rules)), action)
+
+
+def make_parse(n_tokens, prefix=""):
+    toks = TOKENS if not prefix else [t for t in TOKENS if t not in ("noqa", "-- ", "x")]
+
+    def factory(excluded=frozenset()):
+        def harness(c):
+            from sqlfluff.core.errors import SQLParseError
+            n = int(fresh_int(c, "n_tokens", 1, n_tokens))
+            comment = prefix + "".join(choose(c, f"tok{i}", toks) for i in range(n))
+            got = IgnoreMask._parse_noqa(comment, 3, 7, {k: set(v) for k, v in REFMAP.items()})  # REAL
+            exp = ref_parse(comment, REFMAP)
+            if got is None:
+                res = None
+            elif isinstance(got, SQLParseError):
+                res = "error"
+                c.witness("malformed")
+            else:
+                res = (got.rules, got.action)
+                c.witness("directive")
+                if got.rules and len(got.rules) > 1:
+                    c.witness("several_rules")
+                if (got.line_no, got.line_pos) != (3, 7):
+                    return False
+            return res == exp
+        return harness
+    return factory
+
+
+def replay_parse(n_tokens, prefix=""):
+    toks = TOKENS if not prefix else [t for t in TOKENS if t not in ("noqa", "-- ", "x")]
+
+    def rp(cex):
+        from sqlfluff.core.errors import SQLParseError
+        n = int(cex.get("n_tokens", 1))
+        comment = prefix + "".join(toks[int(cex.get(f"tok{i}", 0))] for i in range(n))
+        got = IgnoreMask._parse_noqa(comment, 3, 7, {k: set(v) for k, v in REFMAP.items()})
+        res = None if got is None else "error" if isinstance(got, SQLParseError) else (got.rules, got.action)
+        exp = ref_parse(comment, REFMAP)
+        if res != exp:
+            return f"comment {comment!r}: parsed as {res}, the documented grammar gives {exp} (reference map {sorted(REFMAP)})"
+        return None
+    return rp
+
+
+_orig_units_c20 = units
+
+
+def units(tier, seed):  # noqa: F811
+    cfg = [(3, ""), (4, "noqa:")] if tier == "quick" else [(4, ""), (5, "noqa:"), (4, "x -- noqa: ")]
+    return _orig_units_c20(tier, seed) + [Unit(
+        name=f"c20.parse_noqa[{pre!r} + <= {n} tokens]", functions=["sqlfluff.core.rules.noqa.IgnoreMask._parse_noqa"],
+        bounds={"comment": f"{pre!r} followed by every concatenation of <= {n} tokens from {TOKENS}", "reference map": sorted(REFMAP)},
+        make=make_parse(n, pre), replay=replay_parse(n, pre),
+        stubs=["none: real strings, real fnmatch; the token sequence is solver-forked"],
+        outside=["comments outside this token alphabet", "block-comment marker stripping in _extract_ignore_from_comment"],
+        witnesses_required=["directive"] + (["several_rules"] if pre else ["malformed"]), sharded=True,
+        timeout_s=600 if tier == "quick" else 2400) for n, pre in cfg]
